@@ -1644,3 +1644,47 @@ def rule_O6(ctx, rule: str = "O6") -> None:
                             "oneof {a=1; b=2}: records a, b, a  ->  b stays selected")
         else:
             ctx.inconclusive(rule, name, f"deferred assignment replays {base.id}, whose construction is not recognised", mod.loc(site))
+
+
+def rule_D9(ctx, rule: str = "D9") -> None:
+    """the field helpers (string_field, bytes_field, ... - the calls the plugin emits) hand every presence-relevant parameter
+    on: a helper that takes `optional` / `group` / `wraps` passes that very parameter to dataclass_field under the same name.
+    Siblings must agree: a helper that drops `optional` declares a proto3-optional field as implicit-presence (default
+    PLACEHOLDER, optional=False), so its explicit empty value is not written.  Read on the unexpanded source, nested defs
+    (helpers made by a factory) included."""
+    import os as _os
+    mod = ctx.repo.mod(M_INIT)
+    tree = mod.tree
+    n = 0
+    bad = []
+    for f in ast.walk(tree):
+        if not isinstance(f, ast.FunctionDef) or f.name == "dataclass_field":
+            continue
+        params = {a.arg for a in f.args.posonlyargs + f.args.args + f.args.kwonlyargs}
+        watched = params & {"optional", "group", "wraps"}
+        if not watched:
+            continue
+        calls = [c for c in ast.walk(f) if isinstance(c, ast.Call) and ast.unparse(c.func) in ("dataclass_field", "betterproto.dataclass_field")
+                 and not any(c in list(ast.walk(g)) for g in ast.walk(f) if isinstance(g, ast.FunctionDef) and g is not f)]
+        if not calls:
+            continue
+        for c in calls:
+            kws = {k.arg: k.value for k in c.keywords if k.arg}
+            star = any(k.arg is None for k in c.keywords)
+            for w in sorted(watched):
+                n += 1
+                v = kws.get(w)
+                name = f"{f.name}:forwards-{w}"
+                if star and v is None:
+                    ctx.inconclusive(rule, name, "keywords are passed as **mapping", mod.loc(c))
+                elif isinstance(v, ast.Name) and v.id == w:
+                    ctx.proved(rule, name, mod.loc(c))
+                elif v is None:
+                    bad.append((f.name, w))
+                    ctx.refuted(rule, name, "dropped", mod.loc(c),
+                                f"{f.name} takes `{w}` but does not pass it to dataclass_field (its siblings do): a field declared with {w}=... is built as if the argument had not been given"
+                                + (" - a proto3 optional field becomes an implicit-presence field whose explicit empty value is not encoded" if w == "optional" else ""),
+                                f"{f.name}(1, {w}=...)")
+                else:
+                    ctx.inconclusive(rule, name, f"{w}={ast.unparse(v)}", mod.loc(c))
+    ctx.floor(rule, "helper parameters forwarded", n, 4)     # a factory that makes the scalar helpers leaves few call sites
